@@ -460,3 +460,38 @@ func (w *vWorld) mutations(from int) int {
 	}
 	return c
 }
+
+// retaint rewrites the escalator-related taints of a node between scans
+// (an external actor, or time passing, changed the cluster).
+func (w *vWorld) retaint(n *vNode, class int, taintAge int64) {
+	n.class = class
+	n.taintAge = taintAge
+	n.taintTs = w.base - taintAge
+	obj := copyNode(n.obj)
+	obj.Spec.Taints = nil
+	esc := v1.Taint{Key: k8s.ToBeRemovedByAutoscalerKey, Value: fmt.Sprint(n.taintTs), Effect: v1.TaintEffectNoSchedule}
+	force := v1.Taint{Key: k8s.ToBeForceRemovedByAutoscalerKey, Value: "x", Effect: v1.TaintEffectNoSchedule}
+	switch class {
+	case tcEsc:
+		obj.Spec.Taints = []v1.Taint{esc}
+	case tcForce:
+		obj.Spec.Taints = []v1.Taint{force}
+	case tcEscAndForce:
+		obj.Spec.Taints = []v1.Taint{esc, force}
+	}
+	n.obj = obj
+}
+
+// setPodCPU replaces a pod's CPU request (pods come and go between scans).
+func (w *vWorld) setPodCPU(p *vPod, cpu int64) {
+	p.cpu = cpu
+	obj := *p.obj
+	obj.Spec.Containers = []v1.Container{{
+		Name: "c",
+		Resources: v1.ResourceRequirements{Requests: v1.ResourceList{
+			v1.ResourceCPU:    *resource.NewMilliQuantity(cpu, resource.DecimalSI),
+			v1.ResourceMemory: *resource.NewQuantity(p.mem, resource.BinarySI),
+		}},
+	}}
+	p.obj = &obj
+}
